@@ -30,7 +30,7 @@ RULE = ('seeded state points on analytic truth motions: |lat|<=80, speed bands <
         'per-stamp sensor errors; non-trivial = every point (the existing test uses one trajectory, large errors, 12 % tolerance); '
         'distinct = generator parameters'
         ' Round 4: before every evaluation the OTHER altitude mode evaluates the same trajectory object and one of its rows (argument purity, order independence); coarse-step class: steady turns of 4..11 deg/s, constant sensor errors, propagate_errors at 2 / 1 / 0.5 s steps against calibrated limits.')
-ASSUMPTIONS = ['coarse-step class: absolute limits 16 / 8 / 4 % (2 / 1 / 0.5 s) on the velocity-error prediction of propagate_errors, calibrated on the unchanged tree for that workload (max 6.2 / 3.0 / 1.5 % over 48 runs)', 'neglected-term table N (per unit time): DR-DR v(1+tan)/R; DV-DR (0.06 + 2 Omega v + v^2 (1+tan^2)/R)/R; DV-PHI (2 Omega + '
+ASSUMPTIONS = ['coarse-step class: absolute limits 16 / 8 / 4 % (2 / 1 / 0.5 s) on the velocity-error prediction of propagate_errors, calibrated on the unchanged tree for that workload (max 6.2 / 3.0 / 1.5 % over 48 runs)', 'neglected-term table N (per unit time): DR-DR v(1+tan)/R; DV-DR (0.06 + 2 Omega v + v^2 (1+tan^2)/R)/R plus g/R on its horizontal diagonal (Schuler coupling, absent from the model); DV-PHI (2 Omega + '
                'v(1+tan)/R) v; PHI-DR v(1+tan^2)/R^2; plus a velocity-independent baseline of 1 % of every included entry and 0.1 Omega g in DV-PHI; '
                'calibrated on the unchanged tree (max observed ratio of the residual to the bound recorded in the evidence) and frozen before the mutation runs',
                'finite-difference steps 1 km / 1 m/s / 1e-4 rad (1e-6 m is below the ulp of a longitude in degrees)']
@@ -71,6 +71,10 @@ def neglected(pva, wa):
     N = np.zeros((9, 9))
     N[0:3, 0:3] = v * (1 + t) / R0
     N[3:6, 0:3] = (0.06 + 2 * OMEGA * v + v * v * (1 + t * t) / R0) / R0
+    # horizontal gravity-direction (Schuler) coupling g / R, structurally absent from the model's DV-DR block (its horizontal diagonal is zero):
+    # it reaches DR-DR as (g / R) D^2 / 2 = 3e-6 at D = 2 s whatever the speed (thorough-run false alarm at v = 0.45 m/s, 1.29 x the old bound)
+    N[3, 0] += 9.8 / R0
+    N[4, 1] += 9.8 / R0
     N[3:6, 6:9] = (2 * OMEGA + v * (1 + t) / R0) * v
     N[6:9, 0:3] = v * (1 + t * t) / R0 ** 2
     if wa:
